@@ -104,6 +104,71 @@ def report(chk: Check, case: dict, prop: str, origin: str):
             signature=None, no_input=True)
 
 
+# ----------------------------------------------------------------------------------------------------
+# D45: a transaction that buffers more writes than the default LRU size of `Memory` (the buffer must never evict)
+
+BUFFER_SIGNATURE = "D45:transaction-buffer-evicts"
+
+
+def buffer_case(mode: str, n: int, touch: bool) -> dict:
+    """one transaction in `mode` that writes `n` distinct keys (w0 .. w<n-1>; with `touch` it re-reads w1 half-way, which
+    makes it "recent" in an LRU buffer), reads the oldest, a middle and the newest write back from inside, commits, and
+    reads every key from outside; the same writes go directly to a second cache.  Real code only (the key universe of the
+    Lean model's driver has three names; the model's buffer never evicts - Model/Tx.lean `overlaySize`)."""
+    from . import vtime
+
+    async def go():
+        from cashews import Cache, TransactionMode
+
+        url = "mem://?size=100000&check_interval=0"
+        cache, direct = Cache(), Cache()
+        cache.setup(url)
+        direct.setup(url)
+        await cache.init()
+        await direct.init()
+        probe = ["w0", "w1", f"w{n // 2}", f"w{n - 1}"]
+        async with cache.transaction(TransactionMode(mode)):
+            for i in range(n):
+                await cache.set(f"w{i}", i)
+                if touch and i == n // 2:
+                    await cache.get("w1")
+            inside = [await cache.get(k, default="-") for k in probe] + [await cache.exists("w0")]
+        for i in range(n):
+            await direct.set(f"w{i}", i)
+        want_inside = [await direct.get(k, default="-") for k in probe] + [await direct.exists("w0")]
+        missing = [f"w{i}" for i in range(n) if await cache.get(f"w{i}", default="-") != i]
+        await cache.close()
+        await direct.close()
+        return {"inside": inside, "direct": want_inside, "missing_after_commit": missing}
+
+    return vtime.run(go)
+
+
+def buffer_stage(chk: Check, prop: str) -> tuple[int, int]:
+    """-> (cases run, violations reported)"""
+    runs = found = 0
+    for mode in txhist.MODES:
+        for n, touch in ((1001, False), (1100, True)):
+            obs = buffer_case(mode, n, touch)
+            runs += 1
+            bad = None
+            if prop == "C04" and obs["inside"] != obs["direct"]:
+                bad = (f"a transaction ({mode}) wrote {n} distinct keys; reading w0, w1, w{n // 2}, w{n - 1} and exists(w0) back from inside "
+                       f"answered {obs['inside']}, on the directly updated copy {obs['direct']}: an earlier write of the same transaction disappeared")
+            if prop == "C03" and obs["missing_after_commit"]:
+                m = obs["missing_after_commit"]
+                bad = (f"a transaction ({mode}) wrote {n} distinct keys and committed; {len(m)} of them are not in the store afterwards "
+                       f"({', '.join(m[:4])}{', ...' if len(m) > 4 else ''}): the commit did not apply all the writes")
+            if bad:
+                found += 1
+                chk.violation(bad, {"stage": "transaction-buffer", "mode": mode, "n": n, "touch": touch, "observed": obs,
+                                    "replay_cmd": f"./check {prop} --replay <this file>"}, signature=BUFFER_SIGNATURE)
+                break
+        if found:
+            break
+    return runs, found
+
+
 def corpus_cases(prop: str):
     for f in sorted((ROOT / "corpus" / prop).glob("*.json")):
         c = json.loads(f.read_text())
@@ -154,6 +219,10 @@ def run_prop(chk: Check, prop: str) -> int:
     for c in txhist.pattern_cases(None if chk.thorough else chk.rng, 3000):
         cases.append(("delete-match", c))
         npat += 1
+    nctl = 0
+    for c in txhist.control_cases():
+        cases.append(("control-state", c))
+        nctl += 1
     for i in range(n):
         cases.append((f"gen:{i}", txhist.gen_case(chk.rng, i)))
     nexh = 0
@@ -162,6 +231,8 @@ def run_prop(chk: Check, prop: str) -> int:
             cases.append(("exhaustive", c))
             nexh += 1
     found = 0
+    nbuf, fbuf = buffer_stage(chk, prop)
+    found += fbuf
     evaluations = 0
     distinct = set()
     interesting: dict[str, int] = {}
@@ -208,6 +279,20 @@ def run_prop(chk: Check, prop: str) -> int:
     if proof is not None:
         chk.proof_broken(proof, found > 0)
     chk.coverage.update({
+        "transaction_buffer_cases": nbuf,
+        "transaction_buffer_rule": "D45: per mode one transaction writing 1001 distinct keys and one writing 1100 (re-reading an early key half-way), the "
+                                   "oldest / a middle / the newest write read back from inside (C04) and every key read after commit (C03), against "
+                                   "the same writes applied directly; real code only; a regression is reported under signature " + BUFFER_SIGNATURE,
+        "control_state_cases": nctl,
+        "control_state_rule": "cache.disable(...) / cache.enable(...) are events of the programs (12% of the blocks are preceded by one, 2% of the "
+                              "events inside a block are one; sets: a bulk command alone - delete_many, set_many -, a single command alone, both, "
+                              "delete_match, reads), applied to the transactional cache and to the direct copy alike; plus the enumerated sub-space "
+                              "15 control states x {set before the block, inside before the writes, inside after the writes right before the commit, "
+                              "set before and lifted inside} x 2 write scripts (single-key writes / bulk + pattern writes + a conditional set) x 2 "
+                              "initial stores x 3 modes (720 cases, both tiers, exhaustive over this space; every 5th left by an exception). A command "
+                              "disabled when issued must change nothing and answer its default; the commit must apply every write that was accepted, "
+                              "whatever is disabled by then (judged by the ordinary C03 oracle: store after commit = the direct copy, which ran the "
+                              "same commands under the same control state)",
         "delete_match_cases": npat,
         "delete_match_rule": "pattern commands inside a transaction are commands of the histories like any other (delete_match 7%, scan and get_match 2.5% "
                              "each of the generated commands, half of the patterns repeating one used earlier in the same program; patterns over the names "
@@ -270,8 +355,8 @@ def run_prop(chk: Check, prop: str) -> int:
                        "BaseException, cancellation - is judged as a rollback (store = store before the segment, no lock key left), and the "
                        "exception that comes out of the block must be the one that went in (a swallowed or replaced one is reported)",
         "trusted_base": TRUSTED,
-        "partial": "one task and one Memory backend; a context object shared between tasks is not exercised; non-dyadic TTLs, more than 3 keys, blocks longer than 14 commands, the overlay's "
-                   "own capacity of 1000 entries, patterns that reach the reserved ':'-prefixed lock keys (excluded by the properties' proviso), pattern "
+        "partial": "one task and one Memory backend (so control state per PREFIX - several backends in one transaction - is not exercised; disable of set_lock / unlock, which the lock modes call on the backend object directly, is not either); a context object shared between tasks is not exercised; non-dyadic TTLs, more than 3 keys, blocks longer than 14 commands, transactions of more than "
+                   "three keys other than the D45 stage (1001 / 1100 distinct keys, real code only), patterns that reach the reserved ':'-prefixed lock keys (excluded by the properties' proviso), pattern "
                    "metacharacters other than '*' (C13's subject) are not exercised",
     })
     chk.assumptions.extend(TRUSTED)
@@ -280,6 +365,15 @@ def run_prop(chk: Check, prop: str) -> int:
 
 def replay_prop(chk: Check, prop: str, path: str) -> int:
     c = json.loads(Path(path).read_text())
+    if c.get("stage") == "transaction-buffer":
+        obs = buffer_case(c["mode"], c["n"], c["touch"])
+        print(json.dumps(obs)[:600])
+        bad = obs["missing_after_commit"] if prop == "C03" else obs["inside"] != obs["direct"]
+        if not bad:
+            print("replay: no disagreement")
+            return 0
+        print(f"VIOLATION property={prop} replay={path}")
+        return 1
     case = {"config": c["config"], "init": c["init"], "events": c["events"]}
     ev = evaluate(case)
     for (l, o), a in zip(ev["trace"], ev["answers"]):
